@@ -15,6 +15,7 @@ Next == /\ i < Len(Recs)
                         \* repetition it uses: the two cannot both exist, the compiler has to say so
                         bad |-> IF "err" \in DOMAIN r.g
                                 THEN (IF r.reject THEN {} ELSE {<<"valid_document_rejected", r.g.err, r.g.msg>>})
+                                ELSE IF ~ConsistentG(r.g) THEN {<<"built_grammar_is_inconsistent">>}
                                 ELSE (IF r.reject THEN {<<"helper_name_clash_accepted">>} ELSE {})
                                      \cup BuilderDefects(r.doc, r.g)])>>)
 =============================================================================
